@@ -120,6 +120,9 @@ def check_files(mtjs):
     from ..runner import scratch
     from trees import grammaroutput, grammarinput
     mts = [model.MT.from_json(j) for j in mtjs]
+    for mt in mts:          # words the writers warn about (raw parentheses) and words that look like comments
+        for i, tk in enumerate(mt.toks):
+            tk['word'] = ['(', 'w', '#1', ')'][i % 4]
     case = {'files': True, 'bank': mtjs}
     out = []
 
